@@ -16,6 +16,7 @@ pub mod judge;
 pub mod gen01;
 pub mod rewrite;
 pub mod gen06;
+pub mod gen17;
 
 pub use outcome::*;
 pub use report::*;
